@@ -32,6 +32,3 @@ Definition pinned_decls_queue : list string :=
 
 Definition ok_queue : Prop :=
   of_file fst "queue.go" InvQueue.inventory = pinned_queue /\ of_file (fun s => s) "queue.go" InvQueue.decls = pinned_decls_queue.
-
-Lemma C07_inventory_queue : InvQueue.files = pinned_files /\ ok_queue.
-Proof. unfold ok_queue; repeat split; vm_compute; reflexivity. Qed.
